@@ -15,6 +15,10 @@ type ArchiveHooks struct {
 	// OnPieceReaderClose runs when a piece reader handed out for an upload has
 	// been closed (the piece has been served) with the Close error.
 	OnPieceReaderClose func(d core.Digest, piece int, err error)
+	// BeforePieceRead runs once per piece reader, before its first Read (the
+	// conn starts copying the piece to the socket); it may block, which keeps
+	// the reader open — a transfer that takes time.
+	BeforePieceRead func(d core.Digest, piece int)
 }
 
 type archiveWrapper struct {
@@ -64,13 +68,24 @@ func (t *torrentWrapper) GetPieceReader(piece int) (storage.PieceReader, error) 
 	if err != nil {
 		return nil, err
 	}
-	return &readerWrapper{pr, t, piece}, nil
+	return &readerWrapper{PieceReader: pr, t: t, piece: piece}, nil
 }
 
 type readerWrapper struct {
 	storage.PieceReader
-	t     *torrentWrapper
-	piece int
+	t       *torrentWrapper
+	piece   int
+	started bool // Read is only called by the one goroutine copying the piece
+}
+
+func (r *readerWrapper) Read(p []byte) (int, error) {
+	if !r.started {
+		r.started = true
+		if r.t.h.BeforePieceRead != nil {
+			r.t.h.BeforePieceRead(r.t.Digest(), r.piece)
+		}
+	}
+	return r.PieceReader.Read(p)
 }
 
 func (r *readerWrapper) Close() error {
